@@ -617,10 +617,32 @@ def model_output(case, m):
 
 
 # ---------------------------------------------------------------- oracle: C10's statement on the implementation
+NATURAL_PC = {'C': 0, 'D': 2, 'E': 4, 'F': 5, 'G': 7, 'A': 9, 'B': 11}
+
+
+def _own_pc(idx, alter):
+    return (NATURAL_PC[LETTERS[idx]] + alter) % 12
+
+
 def _chord_relation(fig_in, fig_out, k, where):
     """root, bass and the set of pitch classes move by k mod 12; quality, kind and modifications unchanged."""
     from note_seq import chord_symbols_lib as csl
+    # independent reading of both figures (own splitter, music-theory pitch classes of the letters)
+    ci, co = parse_figure(fig_in), parse_figure(fig_out)
+    if co is None:
+        return {'kind': 'transposed-chord-not-in-grammar', 'figure': fig_in, 'k': k, 'out': fig_out, 'where': where}
+    if ci is not None:
+        if _own_pc(co[0], co[1]) != (_own_pc(ci[0], ci[1]) + k) % 12:
+            return {'kind': 'chord-root-not-shifted', 'figure': fig_in, 'k': k, 'out': fig_out, 'where': where}
+        if ci[3] != co[3] or (ci[3] and _own_pc(co[4], co[5]) != (_own_pc(ci[4], ci[5]) + k) % 12):
+            return {'kind': 'chord-bass-not-shifted', 'figure': fig_in, 'k': k, 'out': fig_out, 'where': where}
+        if ci[2] != co[2] or ci[6:] != co[6:]:
+            return {'kind': 'chord-kind-or-modifications-changed', 'figure': fig_in, 'k': k, 'out': fig_out,
+                    'where': where}
     oi, oo = _obs(fig_in), _obs(fig_out)
+    if ci is not None and (oi[0] != ['OK', _own_pc(ci[0], ci[1])] or
+                           oi[1] != ['OK', _own_pc(ci[4], ci[5]) if ci[3] else _own_pc(ci[0], ci[1])]):
+        return {'kind': 'chord-root-or-bass-misread', 'figure': fig_in, 'got': [oi[0], oi[1]], 'where': where}
     for name, i in (('root', 0), ('bass', 1)):
         if oi[i][0] != 'OK' or oo[i][0] != 'OK' or oo[i][1] != (oi[i][1] + k) % 12:
             return {'kind': 'chord-%s-not-shifted' % name, 'figure': fig_in, 'k': k, 'out': fig_out, 'where': where}
@@ -672,7 +694,7 @@ def oracle(case, io):
     if op == 'tpc':
         st, al, k = a
         from note_seq import chord_symbols_lib as csl
-        if io[0] != 'OK' or io[3] != (io[2] + k) % 12:
+        if io[0] != 'OK' or io[3] != (io[2] + k) % 12 or io[2] != _own_pc(st, al) or io[3] != _own_pc(*io[1]):
             return {'kind': 'pitch-class-not-shifted-by-k', 'step': LETTERS[st], 'alter': al, 'k': k, 'got': io}
         s = csl._pitch_class_to_string(LETTERS[io[1][0]], io[1][1])
         if list(csl._parse_pitch_class(s)) != [LETTERS[io[1][0]], io[1][1]]:
